@@ -18,6 +18,19 @@ CONSTANTS
 INVARIANTS NoPanic AtMostOneBest InfoBeforeBest NeverTooManyAnswers AtEnd
 PROPERTY Termination
 """
+GEN_CFG = """INIT Init2
+NEXT Next2
+INVARIANT Emit
+CHECK_DEADLOCK FALSE
+CONSTANTS
+ MaxCmds = %d
+ MaxInfos = 1
+ OutCap = 4
+ PonderCap = 1
+ Timed = FALSE
+ UciLines = 6
+ MaxSearchSteps = 2
+"""
 TRACE_CFG = """INIT TInit
 NEXT TNext
 POSTCONDITION Done2
@@ -124,12 +137,30 @@ def c13(prop, tier, replay):
         if "Deadlock reached" not in bad.out:
             raise vf.Infra("Uci.tla with an unbuffered ponderhit channel should deadlock (non-vacuity check):\n" + bad.out[-1500:])
         vf.log("Uci.tla model checked: %d distinct states %.1fs" % (mc.distinct, time.time() - t0))
+        # model -> implementation: every conforming script of <= 2 (3) commands with every order of mock-search steps,
+        # enumerated by TLC in a sequentialised semantics and replayed step by step on a real driver
+        gen = vf.tlc(work, "UciGen", GEN_CFG % (2 if quick else 3), timeout=6000, workers=vf.NCPU, heap="12g")
+        if not gen.no_error:
+            raise vf.Infra("UciGen failed:\n" + gen.out[-2000:])
+        allpaths = [s[5:] for s in gen.printed if s.startswith("PATH ")]
+        import random
+        rnd = random.Random(vf.seed())
+        take = min(len(allpaths), 900 if quick else 30000)
+        chosen = rnd.sample(allpaths, take)
+        vf.log("UciGen enumerated %d behaviours, replaying %d (%.1fs)" % (len(allpaths), take, time.time() - t0))
         nscen = 90 if quick else 700
         shards = []
         for i in range(vf.NCPU):
             race = i % 4 == 3
             args = ["-n", str(nscen if not race else nscen // 3), "-seed", str(vf.seed() * 7907 + i), "-steps", str(10 + (i % 3) * 6), "-real", str([20, 35, 60][i % 3])]
             shards.append((i, race, args))
+
+        nrep = 6
+        for j in range(nrep):
+            pf = os.path.join(work, "paths-%d.jsonl" % j)
+            with open(pf, "w") as f:
+                f.write("\n".join(chosen[j::nrep]) + "\n")
+            shards.append((100 + j, False, ["-paths", pf, "-seed", str(vf.seed())]))
 
         def one(sh):
             i, race, args = sh
@@ -177,6 +208,7 @@ def c13(prop, tier, replay):
             "design_model": {"module": "Uci.tla (UciMC)", "distinct_states": mc.distinct, "scripts": "all conforming GUI scripts of <= %d commands" % (3 if quick else 4),
                              "checked": "no Go run-time panic, one bestmove per go after its info lines, readyok/answer counts, deadlock freedom, termination under fairness",
                              "non_vacuity": "PonderCap = 0 (unbuffered ponderhit channel) deadlocks"},
+            "behaviours_enumerated_by_tlc": len(allpaths), "behaviours_replayed_on_the_real_driver": take,
             "samples": [sample],
             "rule": "random conforming GUI scripts against a real uci.Driver with a controllable mock search or the real search, racing or waiting; only observable events are logged, TLC infers the driver's internal steps; a scenario must be a behaviour of Uci.tla up to Driver.Run returning with all goroutines gone",
         }
